@@ -171,7 +171,8 @@ class C18(Prop):
     def run_schedule(self, res, case, n, sc, solos):
         vs = [build(case, k) for k in range(n)]
         its = [vs[k].iter_errors(instance_for(case, k)) for k in range(n)]
-        depth0 = [len(v.resolver._scopes_stack) for v in vs]
+        depth0 = [impl.stack_depth(v.resolver) for v in vs]
+        scope0 = [v.resolver.resolution_scope for v in vs]
         got = [[] for _ in range(n)]
         done = [False] * n
         switches_in_scope = 0
@@ -184,7 +185,8 @@ class C18(Prop):
             if done[k]:
                 continue
             if last is not None and last != k and any(
-                    len(vs[j].resolver._scopes_stack) > depth0[j] for j in range(n) if not done[j]):
+                    (impl.stack_depth(vs[j].resolver) > depth0[j] or vs[j].resolver.resolution_scope != scope0[j])
+                    for j in range(n) if not done[j]):
                 switches_in_scope += 1
             last = k
             try:
